@@ -89,6 +89,7 @@ type Ctx struct {
 	nLoaded int
 	nFuncs  int
 	quiet   bool
+	alias   [][2]string
 }
 
 type anchorLost struct{ msg string }
@@ -127,6 +128,7 @@ func (c *Ctx) Lost(format string, a ...any) {
 
 // Rule declares a rule family (documentation + floor on instance count).
 func (c *Ctx) Rule(id, engine, text string, floor int) {
+	id = c.aliased(id)
 	if c.rules == nil {
 		c.rules = map[string]*RuleDoc{}
 	}
@@ -136,7 +138,26 @@ func (c *Ctx) Rule(id, engine, text string, floor int) {
 	c.rules[id] = &RuleDoc{ID: id, Engine: engine, Text: text, Floor: floor}
 }
 
+// Alias runs f with every obligation key (and rule declaration) that starts with
+// `from` rewritten to start with `to`: lets one property arm a rule family that
+// another property's file implements (shared disciplines), under its own id.
+func (c *Ctx) Alias(from, to string, f func()) {
+	c.alias = append(c.alias, [2]string{from, to})
+	defer func() { c.alias = c.alias[:len(c.alias)-1] }()
+	f()
+}
+
+func (c *Ctx) aliased(s string) string {
+	for i := len(c.alias) - 1; i >= 0; i-- {
+		if strings.HasPrefix(s, c.alias[i][0]) {
+			return c.alias[i][1] + strings.TrimPrefix(s, c.alias[i][0])
+		}
+	}
+	return s
+}
+
 func (c *Ctx) add(st Status, key, site, detail string) {
+	key = c.aliased(key)
 	c.obls = append(c.obls, &Obl{Key: key, Site: site, Status: st.String(), Detail: detail, st: st})
 }
 
